@@ -583,13 +583,16 @@ func (d *DistKeyGenerator) ProcessResponses(bundles []*ResponseBundle) (
 	jb *JustificationBundle,
 	err error) {
 
-	if !d.canReceive && d.state != DealPhase {
-		// if we are a old node that will leave
-		err = &PhaseError{
-			DealPhase,
-			d.state,
+	if !d.canReceive {
+		// if we are a old node that will leave: ProcessDeals, which is optional
+		// for such a node, moves it from DealPhase to ResponsePhase
+		if d.state != DealPhase && d.state != ResponsePhase {
+			err = &PhaseError{
+				DealPhase,
+				d.state,
+			}
+			return nil, nil, err
 		}
-		return nil, nil, err
 	} else if d.state != ResponsePhase {
 		err = &PhaseError{
 			ResponsePhase,
@@ -617,8 +620,9 @@ func (d *DistKeyGenerator) ProcessResponses(bundles []*ResponseBundle) (
 		if bundle == nil {
 			continue
 		}
-		if d.canIssue && bundle.ShareIndex == d.nidx {
-			// just in case we don't treat our own response
+		if d.canIssue && d.canReceive && bundle.ShareIndex == d.nidx {
+			// just in case we don't treat our own response (a leaving node has
+			// no index in the new group and thus no response of its own)
 			continue
 		}
 		if !isIndexIncluded(d.c.NewNodes, bundle.ShareIndex) {
